@@ -2,7 +2,7 @@
 # try_seed.sh <scratch> <id> <patch> [tier]: apply patch in scratch copy, run ./check id, reverse the patch
 sc="$1"; id="$2"; patch="$3"; tier="${4:-quick}"
 /verif/tools/mkscratch.sh "$sc" >/dev/null
-( cd "$sc" && git apply --unsafe-paths "$patch" ) || { echo "$id: patch does not apply"; exit 2; }
+( cd "$sc" && git apply --unsafe-paths "$patch" && grep "^+++ b/" "$patch" | sed "s,^+++ b/,," | xargs -r touch ) || { echo "$id: patch does not apply"; exit 2; }
 out=$(cd /verif && VERIF_REPO="$sc" timeout 3000 ./check "$id" "$tier" 2>&1); rc=$?
-( cd "$sc" && git apply -R --unsafe-paths "$patch" )
+( cd "$sc" && git apply -R --unsafe-paths "$patch" && grep "^+++ b/" "$patch" | sed "s,^+++ b/,," | xargs -r touch )
 echo "$id [$tier] rc=$rc :: $(echo "$out" | grep -E "violation \[|MACHINERY|^error" | head -3 | cut -c1-300)"
